@@ -67,6 +67,8 @@ def _dw_case(case):
     a = config.get("a", [0.0] * d)
     b = config.get("b", [1.0] * d)
     key = {"strategy": "dimension-wise"}
+    if config.get("dim_adaptive") is False:
+        key["dim_adaptive"] = False        # public constructor option (default True): the scheme is not extended adaptively
     fails = []
     subsets, mcomps, mexact = _multilinear(d, a, b)
     if config.get("modified_basis"):
@@ -240,9 +242,10 @@ def run_case(case):
 def configs(tier):
     out = []
 
-    def dwc(d, lmin, lmax, version, reb, bnd, D, s, modified=False, a=None, b=None, towards=None):
+    def dwc(d, lmin, lmax, version, reb, bnd, D, s, modified=False, a=None, b=None, towards=None, **opts):
         c = {"strategy": "dw", "d": d, "lmin": lmin, "lmax": lmax, "version": version, "rebalancing": reb,
              "boundary": bnd, "modified_basis": modified, "s": s}
+        c.update(opts)
         if towards:
             c["towards"] = towards
         if a is not None:
@@ -287,6 +290,10 @@ def configs(tier):
         dwc(2, 1, 2, 6, False, False, 2, 1, modified=True)
         dwc(2, 1, 2, 6, False, True, 2, 1, a=[-1.0, 2.0], b=[3.0, 4.0])
         dwc(3, 1, 2, 6, False, True, 1, 1)
+        # rarely used public constructor options of the dimension-wise strategy
+        dwc(2, 1, 2, 6, False, True, 2, 1, dim_adaptive=False)
+        dwc(2, 1, 3, 6, False, True, 1, 1, dim_adaptive=False)
+        dwc(2, 1, 2, 6, False, True, 2, 1, use_volume_weighting=True)
         for version in (6, 7, 8, 2, 3):
             dwc(2, 1, 2, version, False, True, 4, 1, towards=[[0.3, 0.3], [0.3, 0.8]])
         dwc(2, 1, 2, 6, False, False, 4, 1, modified=True, towards=[[0.3, 0.3]])
